@@ -355,6 +355,33 @@ def vec(vs, dt):
     return a.astype(npdt(dt)) if dt in CPLX else a.real.astype(npdt(dt))
 
 
+def near_real_tree(gen, rnd):
+    """complex128 operators whose entries are ALMOST real relative to their size (real parts ~1e6, imaginary parts 1 or 2):
+    tolerance-based tests such as allclose(d, conj(d)) accept them although they are not Hermitian.  64-bit payloads only
+    (the values and their pairwise products are exact in double precision)."""
+    dt = "complex128"
+    n = rnd.randint(1, 3)
+    nv = lambda: [rnd.choice([-1, 1]) * 10 ** 6 * rnd.randint(1, 3), rnd.choice([-2, -1, 1, 2])]
+    kind = rnd.choice(["Diag", "Diag", "Diag", "Dense", "Scal", "Tridiag"])
+    if kind == "Diag":
+        t = dict(k="Diag", dt=dt, d=[nv() for _ in range(n)])
+    elif kind == "Dense":
+        t = dict(k="Dense", dt=dt, a=[[nv() if i == j else [0, 0] for j in range(n)] for i in range(n)])
+    elif kind == "Scal":
+        t = dict(k="Scal", dt=dt, c=nv(), n=n)
+    else:
+        t = dict(k="Tridiag", dt=dt, al=[[0, 0] for _ in range(n - 1)], be=[nv() for _ in range(n)], ga=[[0, 0] for _ in range(n - 1)])
+    small = lambda m_: dict(k="Diag", dt="float64", d=[[rnd.randint(1, 3), 0] for _ in range(m_)])
+    w = rnd.random()
+    if w < 0.25:
+        t = dict(k="Sum", ms=[t, dict(k="Scal", dt="float64", c=[rnd.randint(1, 3), 0], n=n)])
+    elif w < 0.45:
+        t = dict(k="Kron", ms=[t, small(rnd.randint(1, 2))] if rnd.random() < 0.5 else [small(rnd.randint(1, 2)), t])
+    elif w < 0.6:
+        t = dict(k="BDiag", ms=[t, small(rnd.randint(1, 2))], mu=[rnd.randint(1, 2), 1])
+    return t
+
+
 def range_slice(idx):
     """index list -> python slice when it is an arithmetic progression, else None"""
     if len(idx) == 0:
